@@ -694,7 +694,7 @@ func c32ConcRun(c c32ConcCase, st *vstat.Stats) error {
 		lbls = append(lbls, "batch-near-limit")
 	}
 	if nAcc < total {
-		lbls = append(lbls, "conc-close-before-last-send")
+		lbls = append(lbls, "conc-some-send-not-accepted")
 	}
 	st.Case(near, string(canon), lbls...)
 	st.Sample(near, map[string]any{"mode": "concurrent senders", "max": c.Max, "senders": len(c.Senders), "sent": total, "accepted": nAcc, "batches": len(batches)})
